@@ -396,7 +396,7 @@ impl DnsCache {
         removed
     }
 
-    /// Evicts expired PTR and SRV, TXT records for each ty_domain in the cache, and
+    /// Evicts expired PTR and SRV, TXT, NSEC records for each ty_domain in the cache, and
     /// returns the set of expired instance names for each ty_domain.
     ///
     /// An instance in the returned set indicates its PTR and/or SRV record has expired.
@@ -450,6 +450,37 @@ impl DnsCache {
                 }
                 !expired
             });
+        }
+
+        // don't keep empty value for a ty_domain.
+        self.ptr.retain(|_, records| !records.is_empty());
+
+        // Evict expired SRV, TXT records that are not reachable via any PTR record (e.g. PTR
+        // not received yet or already gone), and expired NSEC records. No instance to report.
+        self.srv.retain(|_, records| {
+            records.retain(|r| !r.record.get_record().is_expired(now));
+            !records.is_empty()
+        });
+        self.txt.retain(|_, records| {
+            records.retain(|r| !r.record.get_record().is_expired(now));
+            !records.is_empty()
+        });
+        self.nsec.retain(|_, records| {
+            records.retain(|r| !r.record.get_record().is_expired(now));
+            !records.is_empty()
+        });
+
+        // Drop the subtype of instances that no longer have any PTR record.
+        if !self.subtype.is_empty() {
+            let instances: HashSet<&str> = self
+                .ptr
+                .values()
+                .flatten()
+                .filter_map(|r| r.record.any().downcast_ref::<DnsPointer>())
+                .map(|dns_ptr| dns_ptr.alias())
+                .collect();
+            self.subtype
+                .retain(|instance, _| instances.contains(instance.as_str()));
         }
 
         expired_instances
